@@ -16,6 +16,7 @@ Decided clauses (resolved MIR, all paths).  The generating entry may be factored
      source (sibling agreement on the method name) and contain no panic-capable callee.
 Not decided: panics inside naga's front end, validator or diagnostic renderer (library)."""
 from engine_mir import Mir, op_local, op_place
+import re
 from mirutil import feasible_reach, cname, method, guards, chain_of, panic_sites, canon, forward_taint, reads_field, local_from_field, local_is_field_value, place_reads_field
 
 ERR = 'CreateModuleError'
@@ -82,6 +83,26 @@ def error_built_from(mir, T, call_t, variant, err_region):
                 sl, calls, _ = T.backward_slice([op_local(o) for o in rv['ops'] if op_local(o) is not None])
                 if any(c is call_t for _, c in calls):
                     return True
+    # `step(..)?` with `impl From<StepError> for CreateModuleError`: the `?` converts the residual through that impl (std's from_residual calls
+    # From::from); the impl must build this variant from its own argument
+    for b in err_region:
+        t = T.blocks[b]['term']
+        if t['k'] == 'call' and cname(t).endswith('::from_residual') and 'FromResidual<std::result::Result' in cname(t):
+            gen = (t.get('generics') or '')
+            m_ = re.search(r'std::result::Result<std::convert::Infallible, (.*)>\]\s*$', gen)
+            src = m_.group(1) if m_ else None
+            _, calls, _ = T.backward_slice([op_local(a) for a in t['args'] if op_local(a) is not None])
+            if not src or not any(c is call_t for _, c in calls):
+                continue
+            for n2, b2 in mir.bodies.items():
+                if n2.startswith('<') and n2.endswith('>::from') and f'as std::convert::From<{src}>' in n2 and n2[1:].startswith(ERR.split('::')[-1] + ' as '):
+                    for blk in b2.blocks:
+                        for s2 in blk['stmts']:
+                            rv = s2['rv']
+                            if rv['rk'] == 'aggregate' and rv['agg'].endswith(f'{ERR}::{variant}') and rv.get('ops') and \
+                                    all(op_place(o) is not None and canon(b2, op_place(o))[0] == 1 for o in rv['ops']) and s2['lhs']['l'] == 0:
+                                if not [1 for blk3 in b2.blocks for s3 in blk3['stmts'] if s3['rv']['rk'] == 'aggregate' and (ERR + '::') in s3['rv']['agg'] and s3 is not s2]:
+                                    return True
     return False
 
 
